@@ -82,7 +82,7 @@ def fmtEvents (coll : String) (needsDrop : Bool) (log : List Ev) : String :=
   let strs := log.filterMap fun ev =>
     match ev with
     | .dropK kid => if needsDrop then some s!"dk{kid}" else none
-    | .dropV vid => if needsDrop && coll == "map" then some s!"dv{vid}" else none
+    | .dropV vid => if needsDrop && (coll == "map" || coll == "serde") then some s!"dv{vid}" else none
     | .alloc s a => some s!"al{s}/{a}"
     | .free s a => some s!"fr{s}/{a}"
   String.intercalate "," (strs.toArray.qsort (· < ·)).toList
